@@ -1029,6 +1029,13 @@ func randomPolicy(r *core.Rand) policy {
 func (P) Generate(g0 *core.Gen) {
 	g := &collector{Gen: g0}
 	defer g.flush()
+	// the generator calls into the tree (sizes, sanity, standardness, dust): a mutated tree may panic there;
+	// whatever was generated up to that point is still run and compared
+	defer func() {
+		if r := recover(); r != nil {
+			fmt.Fprintln(os.Stderr, "p10: generator stopped early:", r)
+		}
+	}()
 	if os.Getenv("VERIF_C10_ONLY") == "conc" { // manual -race runs
 		for i := 0; i < 300; i++ {
 			r := g.R.Fork()
@@ -1174,8 +1181,14 @@ func (P) Generate(g0 *core.Gen) {
 				for k := range ch {
 					func() {
 						defer func() { recover() }()
-						final, out := execRecord(cands[k].seq)
-						cands[k].ok = final == cands[k].seq && !strings.Contains(out, "nd") && !strings.Contains(out, "bad")
+						final := ""
+						out := watchdog(func() string {
+							f, o := execRecord(cands[k].seq)
+							final = f
+							return o
+						})
+						cands[k].ok = final == cands[k].seq && !strings.Contains(out, "nd") && !strings.Contains(out, "bad") &&
+							out != "timeout" && out != "panic"
 					}()
 				}
 			}()
@@ -1250,8 +1263,14 @@ func (P) Generate(g0 *core.Gen) {
 				for k := range ch {
 					func() {
 						defer func() { recover() }()
-						final, out := execRecord(cands[k].seq)
-						cands[k].ok = final == cands[k].seq && !strings.Contains(out, "nd") && !strings.Contains(out, "bad")
+						final := ""
+						out := watchdog(func() string {
+							f, o := execRecord(cands[k].seq)
+							final = f
+							return o
+						})
+						cands[k].ok = final == cands[k].seq && !strings.Contains(out, "nd") && !strings.Contains(out, "bad") &&
+							out != "timeout" && out != "panic"
 					}()
 				}
 			}()
@@ -1320,7 +1339,15 @@ func (c *collector) flush() {
 							memo.Store(c.cases[i].line, "panic")
 						}
 					}()
-					final, out := execRecord(c.cases[i].line)
+					final := c.cases[i].line
+					out := watchdog(func() string {
+						f, o := execRecord(c.cases[i].line)
+						final = f
+						return o
+					})
+					if out == "timeout" || out == "panic" {
+						final = c.cases[i].line
+					}
 					c.cases[i].line = final
 					memo.Store(final, out)
 				}()
